@@ -4,3 +4,5 @@ from ..rules import args
 
 def run(ctx, rep):
     args.rule_prologues(ctx.mod, rep)
+    from ..rules import more
+    more.rule_arg_exclusive(ctx.mod, rep)
